@@ -91,6 +91,7 @@ class Tape:
         self.nodes = []
         self.clock = 0  # set by the world: epoch counter
         self.vmax = 1.0  # largest finite |value| seen so far (absolute-error scale for cancellation)
+        self.native_dtype_effects = False
         self.integer_valued = True  # every value so far is an integer below 2**50 (exactness certificate)
 
     # ------------------------------------------------------------------ construction
@@ -136,6 +137,16 @@ class Tape:
 
     def val(self, i):
         return self.nodes[i].val
+
+    def set_val(self, i, v):
+        """the forward value as NumPy computed it in the native dtype (bool/int arithmetic differs
+        from the tape's float64 arithmetic: True + True is True)"""
+        v = np.array(v, dtype=np.float64, copy=True)  # (a private copy: shadows are mutated in place later)
+        n = self.nodes[i]
+        if n.val.shape == v.shape and not np.array_equal(n.val, v, equal_nan=True):
+            if not np.allclose(n.val, v, rtol=1e-3, atol=1e-3, equal_nan=True):
+                self.native_dtype_effects = True  # FD self-validation would not see these
+            n.val = v
 
     # ------------------------------------------------------------------ forward
     def _forward(self, kind, v, p):
@@ -494,6 +505,8 @@ class Tape:
     def check_against_fd(self, root, h=1e-6, rtol=2e-4, atol=2e-6, max_elems=64):
         """central finite differences on the non-constant leaves upstream of root.
         Ignores `severed` (validates the VJP rules themselves).  Returns list of problems."""
+        if self.native_dtype_effects:
+            return []
         need = self.upstream(root, stop_at_severed=False, through_const=True)
         for i in need:
             n = self.nodes[i]
